@@ -9,6 +9,7 @@ from vf.tlc import MachineryError
 
 HOST = {'name': 'server01', 'fqdn': 'db.example.org', 'name_mixed': 'Server01.Example.ORG', 'ipv6_upper': '2001:DB8::7F', 'ipv4': '192.0.2.7', 'ipv6': '2001:db8::7',
         'ipv6_full': '2001:0db8:85a3:0000:0000:8a2e:0370:7334', 'ipv6_scoped': 'fe80::1%eth0',
+        'ipv6_scope25': 'fe80::4%25', 'ipv6_scope2512': 'fe80::5%2512',
         'ipv6_scope1': 'fe80::2%1', 'ipv6_scope15': 'fe80::3%enp0s31f6vlan42', 'ipv6_v4mapped': '::ffff:192.0.2.1'}
 assert len(HOST['ipv6_scope15'].split('%')[1]) == 15
 QUERY = {'none': None, 'empty': '', 'single': 'a=1', 'repeat': 'a=1&b=2&a=3', 'blank_value': 'a=&b=', 'amp_only': '&&'}
@@ -95,7 +96,8 @@ def run(ctx):
                               'get_mac_addr_by_ipv6(%s) -> %s, specification %012x' % (ipaddress.IPv6Address(want), back[1], mwant))
         elif k == 'err':
             p = {'v6': '2001:db8::/64', 'v4addr': '10.0.0.1', 'v4dotted_short': '10.1', 'garbage': 'not-a-prefix',
-                 'empty': '', 'int': 5, 'none': None, 'bytes': b'2001:db8::/64'}[c['prefix']]
+                 'empty': '', 'int': 5, 'none': None, 'bytes': b'2001:db8::/64',
+                 'v6_overflow': 'ffff:ffff:ffff:ffff:ffff:ffff::/96'}[c['prefix']]
             m = {'ok': '00:16:3e:33:44:55', 'five_groups': '00:16:3e:33:44', 'garbage': 'zz:zz:zz:zz:zz:zz',
                  'empty': '', 'none': None}[c['mac']]
             got = call(netutils.get_ipv6_addr_by_EUI64, p, m)
@@ -112,10 +114,10 @@ def run(ctx):
                 ctx.violation({'kind': 'escape_ipv6', 'host': c['host']}, {'host': host, 'observed': esc},
                               'escape_ipv6(%r) -> %r' % (host, esc))
             text = esc if c['port'] == 'absent' else '%s:%s' % (esc, c['port'])
-            dflt = None if c['dflt'] == 'none' else int(c['dflt'])
+            dflt = None if c['dflt'] == 'none' else ('5672' if c['dflt'] == 'str5672' else int(c['dflt']))
             got = call(netutils.parse_host_port, text, dflt)
             wp = ref['hp']['port']
-            want = (host, None if wp == 'none' else int(wp))
+            want = (host, None if wp == 'none' else (5672 if wp == 'str5672' else int(wp)))
             if c['port'] == 'absent' and c['host'] in ('name', 'fqdn', 'ipv4') or c['port'] != 'absent' or esc != host:
                 if got != ('ok', want):
                     ctx.violation({'kind': 'parse_host_port', 'host': c['host'], 'port': c['port']},
